@@ -1,10 +1,11 @@
 // ===== queryable_trait.rs — rule E6: the trait `Queryable` of src/query/queryable.rs =====
 // Kept: the exec signatures of the required methods (each one is compared with /repo on every run).
-// Dropped: the supertrait list (Default + Clone + Debug + From<..> + PartialEq; `for<'a> From<&'a str>`
-// is not expressible), the provided methods extension_custom / reference / reference_mut (Cow, &mut).
+// Dropped: the supertrait list except Clone (Default + Debug + From<..> + PartialEq; `for<'a> From<&'a str>`
+// is not expressible), the provided methods reference / reference_mut (&mut), and the DEFAULT BODY of the
+// provided method extension_custom (`Self::null()`; only its signature is kept, as the hook the engine calls).
 // Added: one spec accessor per exec accessor (the abstract JSON view) and the facts a faithful
 // implementor satisfies (proof fns without body = assumptions on implementors, listed in the evidence).
-pub trait Queryable: Sized {
+pub trait Queryable: Sized + Clone {
     spec fn as_array_spec(&self) -> Option<&Vec<Self>>;
     spec fn as_object_spec(&self) -> Option<Seq<(&String, &Self)>>;
     spec fn as_str_spec(&self) -> Option<Seq<char>>;
@@ -17,6 +18,8 @@ pub trait Queryable: Sized {
     spec fn from_i64_spec(v: i64) -> Self;
     spec fn from_f64_spec(v: f64) -> Self;
     spec fn from_str_spec(s: Seq<char>) -> Self;
+    // the data type's extension hook (C14): a function of the function name and the argument VALUES
+    spec fn ext_spec(name: Seq<char>, args: Seq<Self>) -> Self;
     // nesting depth of the value (ghost; only makes spec recursion over documents well-founded)
     spec fn height_spec(&self) -> nat;
 
@@ -45,6 +48,9 @@ pub trait Queryable: Sized {
     //@sig
     fn null() -> (r: Self)
         ensures r == Self::null_spec();
+    //@sig-provided
+    fn extension_custom(_name: &str, _args: Vec<Cow<Self>>) -> (r: Self)
+        ensures r == Self::ext_spec(_name@, cow_vals(_args@));
 
     // faithful-implementor facts (assumed)
     proof fn from_bool_roundtrip(b: bool)
